@@ -331,3 +331,63 @@ def k1_method_arity(res, tier):
         if r.kind in ('oob', 'unreachable', 'ub', 'diverge', 'depth', 'panic'):
             res.fail(f'C16.K1:method_arity:{r.kind}', f'method_arity: path ends in {r.kind}: {str(r.info)[:200]}', {'path': str(r.info)})
     summarize_paths(res, e, results, lambda r: r.info if isinstance(r.info, dict) else None, key_prefix='C16.K1:', unwind_ok=False)
+
+
+F23_REPLAY = dict(kind='lay', source='let c = chan(1e300);\nprint("ok");\n', bad_exit=[101, 134, -6], note='chan(n) with a huge n')
+
+
+@obligation('C16.K3.chan_capacity', 'C16', programs=('vm',))
+def k3_chan_capacity(res, tier):
+    """op_buffered_channel for any value as capacity: a runtime error or a channel, never a host panic. VecDeque::with_capacity is
+    modelled with its real precondition (it panics with "capacity overflow" when the requested capacity times the element size
+    exceeds isize::MAX)"""
+    P = get_program('vm')
+    e = Engine(P, loop_bound=5, timeout_s=120, max_depth=60)
+    W = VmWorld(e, P)
+    W.havoc_objects(e)
+    W.summarise_calls(e)
+    import re as _re
+    e.havoc = [_re.compile(rx.pattern.replace('|Channel|', '|')) if '|Channel|' in rx.pattern else rx for rx in e.havoc]
+    e.havoc = [rx for rx in e.havoc if 'VecDeque' not in rx.pattern]
+    f = P.lookup('vm::Vm::op_buffered_channel')
+    vsz = P.layout('Value')[0]
+    res.bounds = {'capacity operand': 'any value (every f64 included)'}
+    res.assumptions = ['an allocation the host cannot satisfy (handle_alloc_error) is an environment failure; only the arithmetic precondition of the allocation is checked',
+                       'the operand is neither undefined nor a box (C02.K1: those never become operands)']
+
+    prev = e.find_model('VecDeque::with_capacity')
+
+    def m_with_capacity(e_, a, c):
+        n = a[0]
+        if not e_.fork_bool(z3.ULE(z3.ZeroExt(64, n) * vsz, (1 << 63) - 1)):
+            raise PathEnd('panic', ('VecDeque::with_capacity: capacity overflow', str(n)))
+        e_.path_state['events'].append(('prealloc', n))
+        if prev is None:
+            raise Unsupported('no model of VecDeque::with_capacity to defer to')
+        return prev[0](e_, a, c)
+    e.model(r'^(std::collections::)?(vec_deque::)?VecDeque::with_capacity$', m_with_capacity)
+    from .c01 import END_KINDS
+
+    def path(e):
+        st = W.fresh_state(e)
+        e.add_constraint(z3.UGE(st.sp, st.fb + 1))
+        from .c01 import ValView
+        op = ValView(e, P, W.stack_at(e, z3.simplify(st.sp - 1)))
+        e.add_constraint(z3.Not(op.is_undef))                       # undefined values and boxes are never operands (C02.K1)
+        e.add_constraint(z3.Not(op.is_kind(P, 'LyBox')))
+        outcome, s = 'ok', None
+        try:
+            s = e.call(f, [Ref(st.vm_cell)])
+        except PathEnd as pe:
+            if pe.kind not in END_KINDS:
+                raise
+            outcome = pe.kind
+        e.check(outcome in ('ok', 'vm_error'), 'chan(n): answers with a channel or a runtime error')
+        return {'outcome': outcome}
+    results = e.explore(path)
+    for r in results:
+        if r.kind in ('oob', 'unreachable', 'ub', 'diverge', 'depth', 'panic'):
+            why = 'capacity_overflow' if 'capacity overflow' in str(r.info) else r.kind
+            res.fail(f'C16.K3:chan:{why}', f'op_buffered_channel: path ends in {r.kind}: {str(r.info)[:200]}', {'path': str(r.info)},
+                     replay=F23_REPLAY if why == 'capacity_overflow' else None)
+    summarize_paths(res, e, results, lambda r: r.info if isinstance(r.info, dict) else None, key_prefix='C16.K3:chan:', unwind_ok=False)
